@@ -820,7 +820,7 @@ def genDocument(rng, n):
         anchors.append((name, anchor, kind, feats))
         if kind == "pin" and feats.get("pinMaterial") == "UZr" and not feats.get("isotopics"):
             fuelLike.append(anchor)
-        if shared and kind == "pin" and feats.get("pinMaterial") == "UZr" and feats.get("isotopics"):
+        if shared and kind == "pin" and name in ("fuel", "feed fuel"):  # component named `fuel`, UZr on the shared isotopic
             xFuel.append(anchor)
     # assemblies
     nAssem = rng.randint(1, 3)
